@@ -714,6 +714,22 @@ fn server_slots() {
             churned += 1;
             tokio::time::sleep(std::time::Duration::from_millis(30)).await;
         }
+        // clients that reset the connection while it still waits in the accept queue (both slots are taken at that moment)
+        {
+            let mut a = tokio::net::TcpStream::connect(("127.0.0.1", port)).await.map_err(|e| format!("connect: {}", e))?;
+            let mut b = tokio::net::TcpStream::connect(("127.0.0.1", port)).await.map_err(|e| format!("connect: {}", e))?;
+            if !served(&mut a, 3000).await || !served(&mut b, 3000).await { return Ok((churned, "two concurrent connections were not both served within 3 s".into())); }
+            for _ in 0..2 {
+                let r = tokio::net::TcpStream::connect(("127.0.0.1", port)).await.map_err(|e| format!("connect: {}", e))?;
+                #[allow(deprecated)]
+                let _ = r.set_linger(Some(std::time::Duration::from_secs(0)));
+                drop(r);      // RST
+                churned += 1;
+            }
+            tokio::time::sleep(std::time::Duration::from_millis(80)).await;
+            drop(a); drop(b);
+            tokio::time::sleep(std::time::Duration::from_millis(150)).await;
+        }
         // two at once must be served ...
         let mut a = tokio::net::TcpStream::connect(("127.0.0.1", port)).await.map_err(|e| format!("connect: {}", e))?;
         let mut b = tokio::net::TcpStream::connect(("127.0.0.1", port)).await.map_err(|e| format!("connect: {}", e))?;
@@ -731,7 +747,7 @@ fn server_slots() {
         let _ = tokio::time::timeout(std::time::Duration::from_secs(10), srv).await;
         Ok((churned, String::new()))
     });
-    let hist = "max_connections = 2; 12 connections ending by clean close / mid-frame / unknown command / protocol error; then 2 concurrent connections + a third";
+    let hist = "max_connections = 2; 12 connections ending by clean close / mid-frame / unknown command / protocol error; 2 connections reset by the client while they wait in the accept queue; then 2 concurrent connections + a third";
     match res {
         Err(e) => { eprintln!("server-slots: {}", e); std::process::exit(3); }
         Ok((_, msg)) if !msg.is_empty() => println!("{{\"found\": true, \"kind\": \"slots\", \"props\": \"C15\", \"history\": {}, \"observed\": {}, \"expected\": {}}}", js(hist), js(&msg), js("two connections served, the third only after one of them closed")),
@@ -1081,6 +1097,14 @@ mod store {
             let v: Vec<&str> = ops.split(';').map(|s| s.trim()).collect();
             run_history(*max, mode, &v, "history");
         }
+        // small and large values of the same key alternating (a layer that treats values by size must not remember the wrong one)
+        {
+            let big = "y".repeat(3000); let big2 = "z".repeat(70000);
+            let hs = format!("set a 1; set a {b}; get a; set b {b}; set b 2; get b; del a; get a; set a {b}; get a; set a {c}; get a; set a 3; get a; checkall; reopen; checkall; get a; get b; merge; checkall", b = big, c = big2);
+            let v: Vec<&str> = hs.split(';').map(|s| s.trim()).collect();
+            run_history(1 << 20, "all", &v, "history");
+            run_history(5000, "all", &v, "history");
+        }
         let mut x = seed.wrapping_mul(6364136223846793005).wrapping_add(1442695040888963407);
         let mut next = move |n: u64| { x = x.wrapping_mul(6364136223846793005).wrapping_add(1442695040888963407); (x >> 33) % n };
         for _ in 0..40 {
@@ -1122,7 +1146,7 @@ mod store {
             let v: Vec<&str> = ops.iter().map(|s| s.as_str()).collect();
             run_history(max, mode, &v, "history");
         }
-        println!("{{\"found\": false, \"searched\": \"12 curated (two with a failing rollover), 40 pseudo-random histories with full merges and 24 with partial merges (no deletes), (set/del/get/merge/reopen over 3 keys, max_file_size in 0,40,100,1M) against the map model incl. per-file live-key and dead-byte accounting\"}}");
+        println!("{{\"found\": false, \"searched\": \"14 curated (two with a failing rollover, two with values of 1 B / 3 KB / 70 KB alternating), 40 pseudo-random histories with full merges and 24 with partial merges (no deletes), (set/del/get/merge/reopen over 3 keys, max_file_size in 0,40,100,1M) against the map model incl. per-file live-key and dead-byte accounting\"}}");
     }
 
     /// C18 (bounded, real time): the background tasks of the real store with a 25 ms check interval.
@@ -1154,10 +1178,35 @@ mod store {
             }
             if h.get(b("k")).ok().flatten().as_deref() != Some(b"value-11".as_ref()) { report("background", "C18", &hist, "k does not read value-11 afterwards".into(), "value-11"); }
         };
+        // (d) a merge pass that FAILS (its first output file already exists) must not end the task: once the obstacle is gone the next
+        //     wake-up merges
+        {
+            let dir = tempfile::tempdir().unwrap();
+            let mut c = Config::default();
+            c.path(dir.path()).concurrency(1).max_file_size(1 << 20).sync(SyncStrategy::None)
+                .merge_policy(MergePolicy::Always).merge_trigger_dead_bytes(10).merge_trigger_fragmentation(1.0)
+                .merge_threshold_small_file(u64::MAX).merge_threshold_dead_bytes(0).merge_threshold_fragmentation(0.0)
+                .merge_check_interval_ms(25).merge_check_jitter(0.2);
+            let kv = c.open().unwrap();
+            let h = kv.get_handle();
+            let ids = |d: &std::path::Path| -> Vec<u64> { std::fs::read_dir(d).unwrap().filter_map(|e| e.unwrap().file_name().to_string_lossy().strip_suffix(".bitcask.data").and_then(|x| x.parse().ok())).collect() };
+            // the ids the first merge output would take (one and two above the active file) are occupied by stray files
+            let top = *ids(dir.path()).iter().max().unwrap();
+            let blocked: Vec<u64> = vec![top + 1, top + 2];
+            for id in blocked.iter() { std::fs::write(dir.path().join(format!("{}.bitcask.data", id)), b"").unwrap(); }
+            for i in 0..12 { h.set(b("k"), b(&format!("value-{}", i))).unwrap(); }      // no rollover: everything stays in the active file
+            std::thread::sleep(std::time::Duration::from_millis(400));      // several wake-ups whose merge (or rollover) fails
+            for id in blocked.iter() { let _ = std::fs::remove_file(dir.path().join(format!("{}.bitcask.data", id))); }
+            let before = ids(dir.path());
+            let deadline = std::time::Instant::now() + std::time::Duration::from_millis(4000);
+            let mut merged = false;
+            while std::time::Instant::now() < deadline { let mut a = ids(dir.path()); let mut b0 = before.clone(); a.sort(); b0.sort(); if a != b0 { merged = true; break; } std::thread::sleep(std::time::Duration::from_millis(10)); }
+            if !merged { report("background", "C18", "policy always, dead bytes above the trigger; the first merge passes fail because the id of their output is occupied by a stray file; the stray files are removed; no client action afterwards", "no merge ran within 4 s after the obstacle was removed (the background task has ended)".to_string(), "a merge at the next wake-up"); }
+        }
         run("policy never, triggers exceeded", MergePolicy::Never, 0, 0.0, false);
         run("policy always, no trigger exceeded", MergePolicy::Always, u64::MAX, 1.0, false);
         run("policy always, dead bytes above the trigger", MergePolicy::Always, 10, 1.0, true);
-        println!("{{\"found\": false, \"evaluations\": 3, \"searched\": \"3 configurations of the background merge (never / always without trigger / always with trigger) on the real store with a 25 ms check interval; a merge is observed as a change of the set of data files\"}}");
+        println!("{{\"found\": false, \"evaluations\": 4, \"searched\": \"4 configurations of the background merge (never / always without trigger / always with trigger / always with a merge pass that fails first) on the real store with a 25 ms check interval; a merge is observed as a change of the set of data files\"}}");
     }
     /// D11: an append that fails mid-entry (RLIMIT_FSIZE makes write(2) fail with EFBIG after a partial write)
     /// leaves a partial record that later appends follow; after a restart acknowledged data is gone.
